@@ -145,8 +145,7 @@ func c42(c *Ctx) {
 				continue
 			}
 			nh++
-			bp := breakPreds(b)
-			c.Expect(len(bp) == 1, b.Instrs[0], or, "onRecv:type-search-stops-at-the-match", "the type search has no (or more than one) early exit")
+			c.Expect(len(breakArms(b)) == 1, b.Instrs[0], or, "onRecv:type-search-stops-at-the-match", "the type search has no (or more than one) early exit")
 			c.EnteredOnlyWhenExcept(b.Succs[1], "onRecv:type-selected-only-by-equal-URL", func(p *ssa.BasicBlock) bool { return p == b }, Cmp(FieldLoad(c.field(xdsc, "ResourceType", "TypeURL")), token.EQL, ParamV("url")))
 		}
 		c.Expect(nh == 1, nil, or, "onRecv:type-search", "no search of the per-type states by URL")
